@@ -203,6 +203,126 @@ impl Part for OrderMixed {
     }
 }
 
+/// DISTINCT / GROUP BY over COMPOSITE keys whose value tuples are easy to confuse: IRIs that are prefixes of one
+/// another (n1 / n12), literals whose concatenations coincide with and without a separator (1,23 / 12,3;
+/// "1","2 3" / "1 2","3"; "x","y z" / "x y","z"). A key built by gluing the values together merges rows or groups that
+/// the algebra keeps apart; the main part's universe makes such tuples rare.
+struct CompositeKeys;
+impl Part for CompositeKeys {
+    type Case = Case;
+    fn name(&self) -> &'static str {
+        "composite-keys"
+    }
+    fn cases(&self, tier: Tier) -> u32 {
+        tier.pick(1500, 40_000)
+    }
+    fn replay_repeats(&self) -> u32 {
+        5
+    }
+    fn strategy(&self, _tier: Tier) -> BoxedStrategy<Case> {
+        const LITS: [&str; 10] = ["1", "12", "2", "23", "3", "1 2", "2 3", "x", "x y", "y z"];
+        const ENTS: [&str; 5] = ["n1", "n12", "n2", "n23", "n3"];
+        let lit = (0usize..11).prop_map(|i| if i < 10 { Tm::Lit(LITS[i].to_string()) } else { Tm::Lit("z".to_string()) });
+        // one entity row: (entity, tag value, p1 value, numeric value)
+        let row = (0usize..5, lit.clone(), lit, 0i64..6);
+        (proptest::collection::vec(row, 1..12), 0u8..7, any::<bool>(), any::<bool>(), 0u8..8, 0usize..5, 0usize..5)
+            .prop_map(|(mut rows, shape, use_prefix, second_entry, inject, ea, eb)| {
+                // most cases contain a pair of entity rows whose key tuples are confusable by construction
+                let l = |x: &str| Tm::Lit(x.to_string());
+                match inject {
+                    0 | 1 => {
+                        // keys (a, c): (n1, 23) / (n12, 3)
+                        rows.push((0, l("23"), l("x"), 1));
+                        rows.push((1, l("3"), l("x"), 2));
+                    }
+                    2 | 3 => {
+                        // keys (c, d) glued without separator: (1, 23) / (12, 3)
+                        rows.push((ea, l("1"), l("23"), 1));
+                        rows.push((eb, l("12"), l("3"), 2));
+                    }
+                    4 => {
+                        // keys (c, d) glued with a space: ("1", "2 3") / ("1 2", "3")
+                        rows.push((ea, l("1"), l("2 3"), 1));
+                        rows.push((eb, l("1 2"), l("3"), 2));
+                    }
+                    5 => {
+                        rows.push((ea, l("x"), l("y z"), 1));
+                        rows.push((eb, l("x y"), l("z"), 2));
+                    }
+                    _ => {}
+                }
+                let e = |n: &str| Tm::Iri(format!("{NS}{n}"));
+                let (tag, p1, val) = (e("tag"), e("p1"), e("val"));
+                let mut default = vec![];
+                for (n, c, d, v) in rows {
+                    default.push([e(ENTS[n]), tag.clone(), c]);
+                    default.push([e(ENTS[n]), p1.clone(), d]);
+                    default.push([e(ENTS[n]), val.clone(), Tm::Num(v)]);
+                }
+                let data = DataSet { default, named: vec![] };
+                let v = |n: &str| PT::Var(n.to_string());
+                let var = |n: &str| ProjItem::Var(n.to_string());
+                let t_tag = [v("a"), PT::C(tag.clone()), v("c")];
+                let t_p1 = [v("a"), PT::C(p1.clone()), v("d")];
+                let t_val = [v("a"), PT::C(val.clone()), v("v")];
+                let sel = |distinct: bool, items: Vec<ProjItem>, body: Vec<Elem>, group_by: Vec<&str>| Select {
+                    distinct,
+                    proj: Proj::Items(items),
+                    from: vec![],
+                    from_named: vec![],
+                    body,
+                    group_by: group_by.into_iter().map(String::from).collect(),
+                    order: vec![],
+                    limit: None,
+                };
+                let agg = |k: AggKind| ProjItem::Agg(k, "v".to_string(), "z".to_string());
+                let query = match shape {
+                    0 => sel(true, vec![var("c"), var("d")], vec![Elem::Bgp(vec![t_tag, t_p1])], vec![]),
+                    1 => sel(false, vec![var("c"), var("d"), agg(AggKind::Sum)], vec![Elem::Bgp(vec![t_tag, t_p1, t_val])], vec!["c", "d"]),
+                    2 => sel(false, vec![var("a"), var("c"), agg(AggKind::Max)], vec![Elem::Bgp(vec![t_tag, t_val])], vec!["a", "c"]),
+                    3 => sel(true, vec![var("a"), var("c")], vec![Elem::Union(vec![vec![Elem::Bgp(vec![t_tag])], vec![Elem::Bgp(vec![[v("a"), PT::C(p1.clone()), v("c")]])]])], vec![]),
+                    4 => sel(false, vec![var("c"), var("d")], vec![Elem::Sub(Box::new(sel(true, vec![var("c"), var("d")], vec![Elem::Bgp(vec![t_tag, t_p1])], vec![])))], vec![]),
+                    5 => sel(
+                        false,
+                        vec![var("c"), var("d"), var("z")],
+                        vec![Elem::Sub(Box::new(sel(false, vec![var("c"), var("d"), agg(AggKind::Sum)], vec![Elem::Bgp(vec![t_tag, t_p1, t_val])], vec!["c", "d"])))],
+                        vec![],
+                    ),
+                    _ => sel(false, vec![var("a"), var("c"), var("d"), agg(AggKind::Min)], vec![Elem::Bgp(vec![t_tag, t_p1, t_val])], vec!["a", "c", "d"]),
+                };
+                Case { data, query, use_prefix, second_entry }
+            })
+            .boxed()
+    }
+    fn check(&self, c: &Case) -> Outcome {
+        let mut o = check_case(c);
+        // non-trivial: the reference answer has two rows whose key columns differ but glue to the same string
+        // (with or without a single-space separator)
+        let lex = c.data.lexical();
+        let ctx = EvalCtx::new(&lex, &c.query.from, &c.query.from_named);
+        let full = eval_select_full(&c.query, &ctx, &Active::Default);
+        let nkeys = c.query.columns().iter().filter(|n| *n != "z").count();
+        let mut glued: std::collections::BTreeMap<(String, String), std::collections::BTreeSet<Vec<Option<String>>>> = Default::default();
+        for r in &full {
+            let key: Vec<Option<String>> = r[..nkeys].to_vec();
+            let parts: Vec<String> = key.iter().map(|x| x.clone().unwrap_or_default()).collect();
+            glued.entry((parts.concat(), parts.join(" "))).or_default();
+            for (g, set) in glued.iter_mut() {
+                if g.0 == parts.concat() || g.1 == parts.join(" ") {
+                    set.insert(key.clone());
+                }
+            }
+        }
+        let confusable = glued.values().any(|s| s.len() >= 2);
+        o.class_if(confusable, "confusable-key-tuples-in-answer");
+        o.nontrivial = confusable;
+        o
+    }
+    fn describe(&self, c: &Case) -> serde_json::Value {
+        json!({"query": Printer { use_prefix: c.use_prefix }.query(&c.query), "rows": c.data.default.len()})
+    }
+}
+
 fn main() {
     let mut s = Session::start(
         "C01",
@@ -211,11 +331,14 @@ fn main() {
          queries from a recursive grammar (BGP with constants/repeated variables/variable predicates, nested groups, UNION, GRAPH <iri>/?g, group-scoped FILTER incl. arithmetic and &&,||,!, BIND(CONCAT), VALUES with UNDEF, \
          sub-SELECT with projection/DISTINCT/ORDER/LIMIT/aggregates, FROM/FROM NAMED, GROUP BY + SUM/MIN/MAX/AVG, ORDER BY, LIMIT) printed as text and run through execute_sparql_query (25%: also execute_query_rayon_parallel2_volcano); \
          oracle = independent nested-loop SPARQL algebra evaluator over the lexical dataset; compared as multisets (+ sortedness under ORDER BY, legal-cut predicate under LIMIT). \
-         Non-trivial = reference answer non-empty, >=3 operators/modifiers, and a variable shared by >=2 triple patterns; distinct = distinct (dataset, query).",
+         Non-trivial = reference answer non-empty, >=3 operators/modifiers, and a variable shared by >=2 triple patterns; distinct = distinct (dataset, query). \
+         Part order-mixed-kinds: ORDER BY/LIMIT over one column mixing numbers, numeric-looking strings, words and IRIs. Part composite-keys: DISTINCT / GROUP BY (also in sub-SELECTs and over UNION) on 2-3 key columns \
+         whose value tuples glue to the same string with or without a separator (n1,23 / n12,3; \"1\",\"2 3\" / \"1 2\",\"3\"); non-trivial there = the reference answer contains two such confusable key tuples.",
     );
     s.assume("supported fragment (DESIGN C01 a-f): FILTER/BIND mention only variables certainly bound in their own group; order comparisons only between numeric values; BIND targets fresh variables; aggregates over certainly-bound numeric variables; no empty-string literals");
     s.assume("SELECT * column order = first syntactic appearance (the row API has no header)");
     s.run(&Main);
     s.run(&OrderMixed);
+    s.run(&CompositeKeys);
     std::process::exit(s.finish());
 }
